@@ -7,13 +7,16 @@ import (
 	"context"
 	"fmt"
 	"os"
+	"math/rand"
 	"os/exec"
 	"path/filepath"
 	"regexp"
+	"runtime"
 	"sort"
 	"strconv"
 	"strings"
 	"sync"
+	"syscall"
 	"time"
 )
 
@@ -498,9 +501,45 @@ var solvers = []solverSpec{
 
 var solverSem = make(chan struct{}, 14)
 
+// machineSlot takes one of NumCPU machine-wide slots (lock files shared by all govc
+// processes), so that checks run side by side do not starve each other's solvers into
+// timeouts: the time a query waits for a slot does not count against its timeout.
+func machineSlot(ctx context.Context) func() {
+	dir := filepath.Join(os.TempDir(), "govc-slots")
+	if err := os.MkdirAll(dir, 0o777); err != nil {
+		return func() {}
+	}
+	n := runtime.NumCPU()
+	if n < 2 {
+		n = 2
+	}
+	start := rand.Intn(n)
+	for {
+		for i := 0; i < n; i++ {
+			f, err := os.OpenFile(filepath.Join(dir, fmt.Sprintf("slot%d", (start+i)%n)), os.O_CREATE|os.O_RDWR, 0o666)
+			if err != nil {
+				return func() {}
+			}
+			if syscall.Flock(int(f.Fd()), syscall.LOCK_EX|syscall.LOCK_NB) == nil {
+				return func() { _ = syscall.Flock(int(f.Fd()), syscall.LOCK_UN); f.Close() }
+			}
+			f.Close()
+		}
+		if ctx.Err() != nil {
+			return func() {}
+		}
+		time.Sleep(15 * time.Millisecond)
+	}
+}
+
 func runOne(ctx context.Context, sp solverSpec, file string, timeoutS, seed int) SolverResult {
 	solverSem <- struct{}{}
 	defer func() { <-solverSem }()
+	if ctx.Err() != nil {
+		return SolverResult{Status: "cancelled", Backend: sp.name}
+	}
+	release := machineSlot(ctx)
+	defer release()
 	if ctx.Err() != nil {
 		return SolverResult{Status: "cancelled", Backend: sp.name}
 	}
